@@ -257,11 +257,14 @@ impl Property for C20 {
                             return Verdict::Skip("malformed-case");
                         }
                         let items = a.completion(pos(ws.root, at), None).unwrap_or_default();
-                        let got: BTreeMap<String, usize> = items
+                        // one item per class: compared as a sorted list, so a class offered twice is seen
+                        let mut got: Vec<(String, usize)> = items
                             .iter()
                             .filter(|c| c.kind == CompletionItemKind::Class)
                             .map(|c| (c.label.clone(), c.insert_text_snippet.as_deref().map(placeholders).unwrap_or(0)))
                             .collect();
+                        got.sort();
+                        let want: Vec<(String, usize)> = want.iter().map(|(k, v)| (k.clone(), *v)).collect();
                         if got != want {
                             let shape = if typed == 0 { ":no-typed-character" } else { "" };
                             return Verdict::Fail(Failure::new(
